@@ -244,6 +244,10 @@ func RecoverLegacyRawTransaction(ctx context.Context, rawTx ethtypes.HexBytes0xP
 		return nil, nil, i18n.NewError(ctx, signermsgs.MsgInvalidLegacyTransaction, "EOF")
 	}
 
+	if !canonicalFields(rlpList[0:6], 3 /* to */, 5 /* data */) {
+		return nil, nil, i18n.NewError(ctx, signermsgs.MsgInvalidLegacyTransaction, "non-canonical field")
+	}
+
 	tx := &Transaction{
 		Nonce:    (*ethtypes.HexInteger)(rlpList[0].ToData().Int()),
 		GasPrice: (*ethtypes.HexInteger)(rlpList[1].ToData().Int()),
@@ -279,6 +283,30 @@ func RecoverLegacyRawTransaction(ctx context.Context, rawTx ethtypes.HexBytes0xP
 
 	return recoverCommon(tx, message, chainID, vValue, rValue, sValue)
 
+}
+
+// canonicalFields checks that every field of a received transaction is an RLP data element written the
+// way the encoder writes it: integers without leading zero bytes, and a "to" that is either empty or a
+// 20 byte address. The signature covers the elements as they were received, while the Transaction that
+// is returned holds their values - the two describe the same transaction only for canonical elements.
+func canonicalFields(fields rlp.List, toIndex, dataIndex int) bool {
+	for i, field := range fields {
+		d, isData := field.(rlp.Data)
+		switch {
+		case !isData:
+			return false
+		case i == dataIndex:
+		case i == toIndex:
+			if len(d) != 0 && len(d) != 20 {
+				return false
+			}
+		default:
+			if len(d) > 0 && d[0] == 0 {
+				return false
+			}
+		}
+	}
+	return true
 }
 
 func recoverCommon(tx *Transaction, message []byte, chainID int64, v int64, r, s []byte) (*ethtypes.Address0xHex, *TransactionWithOriginalPayload, error) {
@@ -321,6 +349,9 @@ func decodeEIP1559SignaturePayload(ctx context.Context, rawTx ethtypes.HexBytes0
 	encodedChainID := rlpList[0].ToData().IntOrZero()
 	if !encodedChainID.IsInt64() || encodedChainID.Int64() != chainID {
 		return nil, nil, i18n.NewError(ctx, signermsgs.MsgInvalidChainID, chainID, encodedChainID)
+	}
+	if !canonicalFields(rlpList[0:8], 5 /* to */, 7 /* data */) || !rlpList[8].IsList() {
+		return nil, nil, i18n.NewError(ctx, signermsgs.MsgInvalidEIP1559Transaction, "non-canonical field")
 	}
 	return rlpList, &Transaction{
 		Nonce:                (*ethtypes.HexInteger)(rlpList[1].ToData().Int()),
